@@ -368,10 +368,10 @@ func genErrs(repo, out string) {
 		if !strings.HasPrefix(s, "codes.") {
 			return "", false
 		}
-		return ".c" + strings.TrimPrefix(s, "codes."), true
+		return "Code.c" + strings.TrimPrefix(s, "codes."), true
 	}
 	var b strings.Builder
-	b.WriteString("import GolibsVerif.Model.ErrsBase\n/- GENERATED by harness/cmd/extract from errors/errors.go and errors/grpc.go — do not edit. -/\nnamespace Gen.Errs\nopen Errs\n\n")
+	b.WriteString("import GolibsVerif.Model.ErrsBase\n/- GENERATED by harness/cmd/extract from errors/errors.go and errors/grpc.go — do not edit. -/\nnamespace Gen.Errs\nopen _root_.Errs\n\n")
 	b.WriteString("/-- the general error classes declared in errors.go -/\ninductive Cls where\n")
 	for _, c := range classes {
 		fmt.Fprintf(&b, "  | %s\n", c)
@@ -396,7 +396,7 @@ func genErrs(repo, out string) {
 				fail("grpcToErrors value", kv[1])
 				return
 			}
-			v = "some ." + kv[1]
+			v = "some Cls." + kv[1]
 		}
 		rows = append(rows, fmt.Sprintf("  (%s, %s)", k, v))
 	}
@@ -408,7 +408,7 @@ func genErrs(repo, out string) {
 			fail("errorsToCode entry", kv[0]+":"+kv[1])
 			return
 		}
-		rows = append(rows, fmt.Sprintf("  (.%s, %s)", kv[0], v))
+		rows = append(rows, fmt.Sprintf("  (Cls.%s, %s)", kv[0], v))
 	}
 	b.WriteString(strings.Join(rows, ",\n") + "]\n\n")
 	fmt.Fprintf(&b, "/-- Go: `jsonErrorMarker` -/\ndef jsonErrorMarker : String := %s\n\nend Gen.Errs\n", leanString(marker))
